@@ -100,7 +100,8 @@ pub trait Monitor: Sync {
     }
     /// Run one case. Must be a pure function of (phase, idx, rng-as-given).
     fn run_case(&self, phase: &str, idx: u64, rng: &mut Rng, obs: &mut Obs);
-    /// Wall-clock watchdog for the whole run (seconds); firing is INCONCLUSIVE.
+    /// Watchdog for the whole run (seconds of load-independent time per worker: CPU time while runnable, wall clock while
+    /// blocked; see runner::worker_progress); firing is INCONCLUSIVE.
     fn watchdog_s(&self, tier: Tier) -> u64 {
         match tier {
             Tier::Quick => 900,
